@@ -12,6 +12,14 @@ from ..regions import CASE_CACHES as _CC
 _CC.append(_cache)
 
 
+class OutputNeverWritten(Unsupported):
+    """a documented output of a catalogue kernel is written by no op of the call (found before symbolic execution)"""
+
+    def __init__(self, label, names):
+        super().__init__("%s never writes its documented output %s" % (label, ", ".join(names)))
+        self.label, self.names = label, names
+
+
 def entry_summary(S, e):
     """summary of one catalogue entry (cached per session)"""
     k = (id(S), e.label())
@@ -27,7 +35,7 @@ def entry_summary(S, e):
     if fn is None:
         res = (None, raised, call_kwargs, extra)
     else:
-        sm = summarize(S, fn, call_kwargs, extra)
+        sm = summarize(S, fn, call_kwargs, extra, expect_written=tuple(e.expected()))
         res = (sm, None, call_kwargs, extra)
     _cache[k] = res
     return res
@@ -65,6 +73,8 @@ def interiors(S, e):
     sm, raised, _, _ = entry_summary(S, e)
     if sm is None or sm.raised is not None:
         raise Unsupported("cannot summarise %s: %s" % (e.label(), raised or sm.raised))
+    if sm.unwritten:
+        raise OutputNeverWritten(e.label(), sm.unwritten)
     return {n: sm.interior(n) for n in sm.final}, sm
 
 
